@@ -181,11 +181,15 @@ class Ctx:
                 p = line if os.path.isabs(line) else os.path.normpath(os.path.join(cwd, line))
                 listing.append(os.path.relpath(p, out_dir))
         files = {}
+        agg_lines = {}
         for rel in listing:
             p = os.path.join(out_dir, rel)
             if os.path.isfile(p):
                 with open(p, "rb") as f:
-                    files[rel] = hashlib.sha1(f.read()).hexdigest()
+                    data = f.read()
+                files[rel] = hashlib.sha1(data).hexdigest()
+                if is_aggregate(backend[0], rel):
+                    agg_lines[rel] = data.decode("utf-8", "replace").splitlines()
         # diagnostics: paths and colours normalised, order irrelevant ("the *set* of diagnostics")
         # (the spelling of the entry path is an input and is echoed by some messages)
         src_dir_spelled = os.path.dirname(spell(src, amb["abs_entry"])) or "."
@@ -205,7 +209,7 @@ class Ctx:
             lo.setdefault(hashlib.sha1("\n".join(listing).encode()).hexdigest(), 0)
         # only the hashes are kept: the trees are regenerated on replay
         shutil.rmtree(out_dir, ignore_errors=True)
-        res = {"rc": r.returncode, "files": files, "diag": diag, "out_dir": out_dir, "cmd": cmd, "cwd": cwd, "listing_len": len(listing)}
+        res = {"rc": r.returncode, "files": files, "agg_lines": agg_lines, "diag": diag, "out_dir": out_dir, "cmd": cmd, "cwd": cwd, "listing_len": len(listing)}
         if r.returncode < 0 or "panicked at" in r.stderr:
             res["crashed"] = True
         self.run_cache[ck] = res
@@ -308,6 +312,11 @@ def compare(ctx, backend, before, after, oracle, edit):
         if fa[rel] != fb[rel]:
             if is_aggregate(backend[0], rel):
                 ctx.inc("aggregate_file_changed_on_insert")
+                # probe only (the property speaks of other types' files, not of library-wide files): does the aggregate
+                # file change in lines that do not mention the inserted type?
+                strip = lambda lines: [l for l in lines if new_name not in l and new_name.lower() not in l.lower()]
+                if strip(before.get("agg_lines", {}).get(rel, [])) != strip(after.get("agg_lines", {}).get(rel, [])):
+                    ctx.inc("probe_aggregate_file_changed_beyond_lines_naming_the_new_type")
                 continue
             return {"what": "another type's file changed when an unreferenced type was added", "file": rel, "inserted": new_name}
     return None
